@@ -114,8 +114,8 @@ M = [
   "pub const WEEKMASK: &[u8] = &[];", "pub const WEEKMASK: &[u8] = &[6];"),
  ("C07", "fed wired back to nyc holidays", "rust/calendars/named/mod.rs",
   "        (\"fed\", fed::HOLIDAYS),", "        (\"fed\", nyc::HOLIDAYS),"),
- ("C07", "syd: Anzac Day 2151 dropped", "rust/calendars/named/syd.rs",
-  "    \"2151-04-25 00:00:00\",\n", ""),
+ ("C07", "syd: Anzac Day 2152 (a Tuesday) dropped", "rust/calendars/named/syd.rs",
+  "    \"2152-04-25 00:00:00\",\n", ""),
  ("C07", "ldn: an extra holiday added in 2031", "rust/calendars/named/ldn.rs",
   "    \"2031-04-11 00:00:00\",", "    \"2031-04-10 00:00:00\",\n    \"2031-04-11 00:00:00\","),
  ("C08", "month total 13 not wrapped", "rust/calendars/dateroll.rs",
